@@ -2,7 +2,10 @@
 from concurrent.futures import ProcessPoolExecutor
 
 from vlib import c12_lib as L
-from vlib import configs, coqrun
+from vlib import c12_dyn as D
+from vlib import c12_bcorr as BC
+from vlib import c12_tpl, configs, coqrun
+from vlib.common import COQ
 from vlib.evm import Chain
 
 LEVEL = "proof"
@@ -23,13 +26,16 @@ META = {
     "technique": "Coq proof over protocol model + differential correspondence against a scriptable callee",
 }
 
-COQ_FILES = ["C12/ExtCall.v", "C12/ExtCallProofs.v", "C12/PropsExtCall.v"]
+COQ_FILES = ["C12/ExtCall.v", "C12/ExtCallProofs.v", "C12/PropsExtCall.v", "C12/CallTpl.v",
+             "C12/ExtCallDyn.v", "C12/ExtCallDynProofs.v", "C12/PropsExtCallDyn.v",
+             "C12/Builtins.v", "C12/BuiltinsProofs.v", "C12/PropsBuiltins.v"]
+TIE_FILES = ["C12/GenCall.v", "C12/TieCall.v", "C12/PropsCallTpl.v"]
 MAX_REPORTS = 3
 
 
 def _compile(cfg):
     try:
-        src, _f, _r = L.caller_source()
+        src, _f, _r, _d = L.caller_source()
         out = configs.compile_src(src, cfg, formats=("bytecode", "method_identifiers"))
         return {"ok": True, "bytecode": out["bytecode"], "mi": out["method_identifiers"]}
     except Exception as e:
@@ -80,11 +86,22 @@ def py_expected(fn, beh):
 
 
 def run(ctx):
-    b = ctx.coq_build(COQ_FILES)
     pending = None
-    if not b["ok"]:
-        pending = (f"{b.get('failed_lemma')} in {b['file']}", {"theorem": b.get("failed_lemma"), "file": b["file"], "coq_output": b["out"][-1500:]})
-    src, fns, raws = L.caller_source()
+    files = list(COQ_FILES)
+    try:
+        text, nt, _fam = c12_tpl.observe()
+        (COQ / "C12" / "GenCall.v").write_text(text)
+        files += TIE_FILES
+        ctx.extra["family_size"] = nt
+    except Exception as e:  # a template left the exportable fragment / a probe no longer compiles
+        pending = ("translator-rejected", f"call template export failed: {type(e).__name__}: {e}", {"error": str(e)})
+    b = ctx.coq_build(files)
+    if not b["ok"] and pending is None:
+        pending = ("theorem-broken", f"{b.get('failed_lemma')} in {b['file']}",
+                   {"theorem": b.get("failed_lemma"), "file": b["file"], "coq_output": b["out"][-1500:]})
+    elif b["ok"] and pending is None:
+        ctx.extra["syntactic_matches"] = nt
+    src, fns, raws, dfns = L.caller_source()
     rnd = ctx.rng("beh")
     cases = [(fn, beh) for fn in fns for beh in L.behaviours(fn[1], rnd)]
     rawbeh = [(False, 0, b""), (True, 0, b""), (True, 0, bytes(range(1, 21))), (True, 0, bytes(range(1, 33))),
@@ -95,9 +112,20 @@ def run(ctx):
     preds = coqrun.eval_zlists("From Verif Require Import C12.ExtCall.\n",
                                [L.model_expr(f, bh) for f, bh in cases] + [L.raw_model_expr(r, bh) for r, bh in rcases],
                                "c12m", shard=150)
+    dcases = []   # (fn, corruptions, code, mode)
+    for fn in dfns:
+        cs = D.corruptions(fn[1], rnd)
+        dcases.append((fn, cs, True, 0))
+        dcases.append((fn, cs[:3], True, 1))     # callee reverts with the crafted bytes
+        dcases.append((fn, cs[:2], False, 0))    # no code
+        dcases.append((fn, cs[:2], True, 3))     # state change attempt (fails under STATICCALL)
+    dpreds = coqrun.eval_zlists("From Verif Require Import C12.ExtCall C06.Abi C05.Dec C05.Harness C12.ExtCallDyn.\n",
+                                [D.model_expr(f, cs, code, mode) for f, cs, code, mode in dcases], "c12d", shard=6)
+    dpreds = [D.split(v) for v in dpreds]
     cfgs = configs.configs(ctx.tier)
     with ProcessPoolExecutor(max_workers=3) as ex:
         builds = list(ex.map(_compile, cfgs, chunksize=1))
+        bbuilds = list(ex.map(BC.compile_builtins, cfgs, chunksize=1))
     n_eval = n_nontriv = n_fail = n_mis = 0
     dist = {}
     reports = []
@@ -155,6 +183,45 @@ def run(ctx):
             elif real != pred:
                 n_mis += 1
                 report("correspondence-broken", "ExtCall.v prediction differs from EVM observation", detail)
+        # dynamic return types
+        for (fn, cs, code, mode), plist in zip(dcases, dpreds):
+            base = D.base_encoding(fn[1])
+            set_target(code)
+            for c, pred in zip(cs, plist):
+                data = D.apply_c(c, base)
+                L.install(ch, callee, mode, data)
+                cd = mi[fn[0]] + rnd.randrange(2**256).to_bytes(32, "big")
+                r = ch.call(caller, cd)
+                n_eval += 1
+                n_nontriv += 1
+                dist["dyn:" + fn[1]] = dist.get("dyn:" + fn[1], 0) + 1
+                real = [1] + list(r.out) if r.ok else [0] + list(r.out)
+                detail = {"config": cfg.name, "function": fn[0], "return_type": D.DYN[fn[1]][0], "mutability": D.MUTS[fn[2]][0],
+                          "kwargs": {"skip_contract_check": fn[3], "default_return_value": fn[4]},
+                          "callee": {"has_code": code, "mode": mode, "data_hex": data.hex(), "corruption": str(c)[:80]},
+                          "calldata_hex": cd.hex(), "expected(model) [status, bytes]": bytes(pred[1:]).hex() + f" status={pred[0]}",
+                          "observed": bytes(real[1:]).hex() + f" status={real[0]}", "caller_source": src}
+                # property oracle independent of the model
+                bad = None
+                static = fn[2] == "v"
+                callee_fails = code and (mode in (1, 2) or (mode == 3 and static))
+                if r.ok:
+                    if callee_fails:
+                        bad = "callee failed but the caller did not revert"
+                    elif not code and not fn[3]:
+                        bad = "target has no code but the caller did not revert"
+                    elif len(data) < 32 * len(D.DYN[fn[1]][2]) and not (fn[4] and len(data) == 0):
+                        bad = "returndata shorter than the static size was accepted"
+                    else:
+                        bad = D.in_bounds(fn[1], r.out)
+                elif callee_fails and r.out != (data if mode == 1 else b""):
+                    bad = "revert data not propagated unchanged"
+                if bad:
+                    n_fail += 1
+                    report("failing-input", f"{fn[0]}: {bad}", detail)
+                elif real != pred:
+                    n_mis += 1
+                    report("correspondence-broken", "ExtCallDyn.v prediction differs from EVM observation", detail)
         # raw_call
         for (raw, beh), pred in zip(rcases, preds[len(cases):]):
             code, mode, data = beh
@@ -188,7 +255,7 @@ def run(ctx):
         n_eval += 2
         gv1 = int.from_bytes(g1.out, "big") if g1.ok else -1
         gv0 = int.from_bytes(g0.out, "big") if g0.ok else -1
-        if not (L.GASKW - 30000 <= gv1 <= L.GASKW) or not (gv0 > 10**6):
+        if not (L.GASKW - 60000 <= gv1 <= L.GASKW) or not (gv0 > 10**6):
             n_fail += 1
             report("failing-input", "gas= not forwarded as requested", {"config": cfg.name, "gas_kw": L.GASKW, "callee_saw_gas_with_kw": gv1,
                                                                        "callee_saw_gas_without_kw": gv0, "caller_source": src})
@@ -203,16 +270,46 @@ def run(ctx):
         if got != want:
             n_fail += 1
             report("failing-input", "calldata seen by the callee is not selector ++ abi(args)", {"config": cfg.name, "want": want, "got": got, "caller_source": src})
+    # ---- builtins: send / raw_revert / raw_call kinds / create_*
+    bcases = BC.build_cases(rnd)
+    cache = {}
+    for cfg, bd in zip(cfgs, bbuilds):
+        if not bd["ok"]:
+            ctx.violation("correspondence-broken", f"builtins caller does not compile under {cfg.name}: {bd['error']}",
+                          {"config": cfg.name, "error": bd["error"], "source": BC.B.SRC})
+            continue
+        results, caller_addr = BC.run_config(cfg, bd, bcases, rnd)
+        exprs = BC.model_exprs(results)
+        new = [e for e in dict.fromkeys(exprs) if e not in cache]
+        if new:
+            for e, v in zip(new, BC.eval_models(new, "c12b")):
+                cache[e] = v
+        for (c, obs, addr, cs, extra, tgt), e in zip(results, exprs):
+            pred = cache[e]
+            n_eval += 1
+            n_nontriv += 1
+            dist["builtin:" + c.fn.split("_")[0]] = dist.get("builtin:" + c.fn.split("_")[0], 0) + 1
+            detail = {"config": cfg.name, "case": c.name, "function": c.fn, "target": c.target, "target_address": tgt,
+                      "args_hex": c.args.hex(), "value": c.value, "prep": str(c.prep), "note": c.note,
+                      "model_expr": e, "expected(model)": pred, "observed_ok": obs["ok"], "observed_out_hex": obs["out"].hex(),
+                      "extra_checks_failed": extra, "caller_source": BC.B.SRC,
+                      "how": "targets: see vlib.c12_builtins (echo_runtime, ACCEPT, REJECT, ERC5202+blueprint_initcode); "
+                             "set_t(target); call function(args) with value"}
+            if not BC.compare(c, obs, pred) or extra:
+                n_fail += 1
+                found = True
+                reports.append(("failing-input", f"{c.name}: builtin does not follow its documented success/failure/truncation behaviour"
+                                + (": " + extra[0] if extra else ""), detail))
     shown = 0
     for kind, name, detail in reports:
         if kind == "failing-input" and shown < MAX_REPORTS:
             shown += 1
-            ctx.violation("failing-input", name, detail, key=f"c12:{detail.get('config')}:{detail.get('function')}")
+            ctx.violation("failing-input", name, detail, key=f"c12:{detail.get('config')}:{detail.get('function')}:{detail.get('case', '')}")
     if not found:
         for kind, name, detail in reports[:MAX_REPORTS]:
             ctx.violation(kind, name, detail)
         if pending is not None:
-            ctx.violation("theorem-broken", pending[0], pending[1])
+            ctx.violation(pending[0], pending[1], pending[2])
     ctx.corr["evaluations"] = n_eval
     ctx.corr["distinct_nontrivial"] = n_nontriv
     ctx.corr["rule"] = ("one evaluation = one (caller function, callee behaviour) pair executed under one configuration; non-trivial = "
